@@ -81,9 +81,9 @@ theorem mu_decreases {cfg : Cfg} {s : State} (hw : WF cfg) (hi : Inv cfg s) (l :
     have h1 := List.length_erase_of_mem hf
     have h2 := List.length_pos_of_mem hf
     have h3 := recipients_length_le cfg v u
-    have h4 := pot_drop (fun a => (cfg.fwd a).length + 1) s.seen v cfg.nodes
-      (hi.flight_node hw hf) hns
-    simp only at h4
+    have h4 : pot (fun a => (cfg.fwd a).length + 1) (v :: s.seen) cfg.nodes
+        + ((cfg.fwd v).length + 1) ≤ pot (fun a => (cfg.fwd a).length + 1) s.seen cfg.nodes :=
+      pot_drop (fun a => (cfg.fwd a).length + 1) s.seen v cfg.nodes (hi.flight_node hw hf) hns
     omega
 
 /-- number of effective receptions in an output list -/
@@ -108,8 +108,9 @@ theorem eff_bound {cfg : Cfg} (hw : WF cfg) (sched : List (Node × Node)) :
         rcases recv_cases cfg s u v with ⟨_, e⟩ | ⟨_, _, e⟩ | ⟨_, _, _, e⟩ | ⟨_, _, _, e⟩
         · rw [e]
         all_goals (rw [e] at he; cases he)
-      rw [he, hs] at *
-      simp only [if_true]
+      rw [hs] at this
+      simp only [he, if_true]
+      rw [hs]
       omega
     · have := mu_decreases hw hi l he
       simp only [he, if_false]
